@@ -25,13 +25,21 @@ K5_PATTERN = re.compile(r"Optional\[(List\[None\]|Dict\[str, None\])\]")
 
 
 @st.composite
-def cases(draw, tier="quick", pools=None, frameworks=gen.FRAMEWORKS):
+def cases(draw, tier="quick", pools=None, frameworks=gen.FRAMEWORKS, root_names=None):
     universe = draw(gen.key_universe(pools or gen.ASCII_KEY_POOLS, min_size=1, max_size=7))
     big = tier == "thorough"
     samples = draw(gen.sample_lists(universe, max_samples=8 if big else 5, max_leaves=14 if big else 10))
     opts = draw(gen.option_sets(universe, frameworks=frameworks))
     if not opts["unicode"] and any(gen.nfkc_unstable(k) for k in universe):
         opts["unicode"] = True      # finding nfkc-unstable-key-without-transliteration, excluded by construction
+    if draw(st.integers(0, 24)) == 0:
+        samples, opts["merge"] = draw(gen.same_named_children(universe))
+        opts["dkr"], opts["dkf"] = [], []
+    if root_names:
+        # the name the user gives the root model (-m NAME / process_meta_data(model_name=NAME)) is part of the input
+        root = draw(st.sampled_from(["Root", "Root"] + list(root_names)))
+        if root != "Root" and not gen.class_name_collision(universe, root) and (opts["unicode"] or not gen.nfkc_unstable(root)):
+            opts["root"] = root
     return {"samples": samples, "opts": opts}
 
 
@@ -48,7 +56,7 @@ def valid(case):
         from ..findings import all_keys
         for x in s:
             ks = list(all_keys(x))
-            if gen.class_name_collision(sorted(set(ks))):
+            if gen.class_name_collision(sorted(set(ks)), o.get("root")):
                 return False
             if not o.get("unicode", True) and any(gen.nfkc_unstable(k) for k in ks):
                 return False
@@ -73,9 +81,9 @@ def opts_valid(o):
                 return False
             if p[0] == "exact" and len(p) != 1:
                 return False
-            if p[0] == "percent" and not (len(p) == 2 and isinstance(p[1], (int, float)) and not isinstance(p[1], bool) and 0 < p[1] <= 100):
+            if p[0] == "percent" and not (len(p) == 2 and isinstance(p[1], (int, float)) and not isinstance(p[1], bool) and 0 <= p[1] <= 100):
                 return False
-            if p[0] == "number" and not (len(p) == 2 and isinstance(p[1], int) and not isinstance(p[1], bool) and p[1] >= 1):
+            if p[0] == "number" and not (len(p) == 2 and isinstance(p[1], int) and not isinstance(p[1], bool) and p[1] >= 0):
                 return False
     sr = o.get("sreg")
     if sr is not None and not (isinstance(sr, list) and all(x in pl.PSEUDO for x in sr) and len(set(sr)) == len(sr)):
@@ -159,7 +167,7 @@ def check(case):
         r.fail("ir-recursion", "")
 
     # level 2: emitted code
-    tree = pl.is_tree(b.reg)
+    tree = pl.is_tree(b.reg, roots_referenced=True)
     nested = bool(opts["nested"] and tree)
     r.label("layout:nested" if nested else "layout:flat")
     if not tree:
@@ -240,4 +248,4 @@ def owned_load(r, src):
 
 def phases(tier):
     n = {"quick": 16 * 700, "thorough": 16 * 22000}[tier]
-    return [dict(name="main", kind="hypothesis", strategy=cases(tier), check=check, examples=n)]
+    return [dict(name="main", kind="hypothesis", strategy=cases(tier, root_names=gen.ROOT_NAMES), check=check, examples=n)]
